@@ -3996,6 +3996,12 @@ class ControlConnection(object):
                 self._cluster.remove_host(old_host)
 
         log.debug("[control connection] Finished fetching ring info")
+        # a node can change its tokens (move, or a replaced node taking over an address) without
+        # any change in membership or location: compare with what the last rebuild was made from
+        token_snapshot = dict((host.endpoint, tuple(tokens)) for host, tokens in token_map.items())
+        if token_snapshot != getattr(self, '_last_token_snapshot', None):
+            should_rebuild_token_map = True
+        self._last_token_snapshot = token_snapshot
         if partitioner and should_rebuild_token_map:
             log.debug("[control connection] Rebuilding token map due to topology changes")
             self._cluster.metadata.rebuild_token_map(partitioner, token_map)
